@@ -36,4 +36,12 @@ theorem drpcHeader_routed :
       ⟨(Migrate.Header.expectedWire headerBytes [(0, [0xaa#8, 0xbb#8])]).flatten, 0, false, 0⟩
       = .toRoute 1 ⟨[0xaa#8, 0xbb#8], 0, false, 8⟩ := by decide
 
+/-! constructors, accessors and small helpers -/
+theorem x_drpcmigrate_dial_DialWithHeader : Generated.fp_drpcmigrate_dial_DialWithHeader = Expected.fp_drpcmigrate_dial_DialWithHeader := by decide
+theorem x_drpcmigrate_dial_HeaderDialer_Dial : Generated.fp_drpcmigrate_dial_HeaderDialer_Dial = Expected.fp_drpcmigrate_dial_HeaderDialer_Dial := by decide
+theorem x_drpcmigrate_dial_HeaderDialer_DialContext : Generated.fp_drpcmigrate_dial_HeaderDialer_DialContext = Expected.fp_drpcmigrate_dial_HeaderDialer_DialContext := by decide
+theorem x_drpcmigrate_header_NewHeaderConn : Generated.fp_drpcmigrate_header_NewHeaderConn = Expected.fp_drpcmigrate_header_NewHeaderConn := by decide
+theorem x_drpcmigrate_listener_newListener : Generated.fp_drpcmigrate_listener_newListener = Expected.fp_drpcmigrate_listener_newListener := by decide
+theorem x_drpcmigrate_mux_NewListenMux : Generated.fp_drpcmigrate_mux_NewListenMux = Expected.fp_drpcmigrate_mux_NewListenMux := by decide
+
 end Drpc.Tie.C16
